@@ -4,6 +4,8 @@ from __future__ import annotations
 import numpy as np
 import sympy
 
+from fractions import Fraction as F
+
 import core
 import ekf_h as eh
 import fk
@@ -15,7 +17,7 @@ RULE = ("definitions with rectangular shapes forced (readings != states, calibra
 NOTE = ["oracle: sympy diff by name (independent of the Lean Expr.diff the model uses), exact Fractions",
         "theorem entry_is_partial speaks about the model's symbolic derivative Expr.diff; that Expr.diff is the analytic derivative is "
         "validated against sympy on every instance (see Proofs/Diff if present), binary64 rounding under 1e-9 relative tolerance"]
-PARTIAL = ["transcendental definitions: oracle only (no exact Lean value)"]
+PARTIAL = ["transcendental definitions: the model's derivative is evaluated in Lean Float (libm) and compared within 1e-6, no exact value"]
 
 
 def run(ctx):
@@ -90,19 +92,37 @@ def run(ctx):
                              case)
             if rational:
                 idx = drv.add({"op": "jacobians", "ekf": eh.ekf_json(d, process, sensor), "point": eh.point_json(pt)})
-                pending.append((idx, got_all, {"def": d.describe(), "point": eh.point_json(pt)}))
+                pending.append((idx, got_all, {"def": d.describe(), "point": eh.point_json(pt)}, False))
+            else:
+                # transcendental definitions: the model's own derivative (proven analytic in Proofs/Diff) evaluated in Lean Float
+                try:
+                    idx = drv.add({"op": "jacobians", "arith": "float", "ekf": eh.ekf_json(d, process, sensor), "point": eh.point_json(pt)})
+                    pending.append((idx, got_all, {"def": d.describe(), "point": eh.point_json(pt)}, True))
+                except gen.Untranslatable:
+                    ctx.count("untranslatable_definition")
     ans = drv.run()
-    for idx, got_all, info in pending:
+    for idx, got_all, info, is_float in pending:
         a = ans[idx]
         if "ok" not in a:
             if a.get("fatal") == "undefined":
                 ctx.count("model_undefined_point"); continue
             ctx.broke("driver:jacobians", a, info); continue
         ctx.traces += 1
+        ctx.count("model_jacobians_float" if is_float else "model_jacobians_exact")
         for which, got in got_all.items():
             model = a["ok"]["G"] if which == "process" else a["ok"]["V"] if which == "control" else a["ok"]["H"][which.split(":", 1)[1]]
-            want = [[core.parse_frac(x) for x in r] for r in model]
-            if not eh.mat_close(got, want):
+            if is_float:
+                import runtime_h as rh
+                want = [[rh.bitsf(x) for x in r] for r in model]
+                if not all(v == v and abs(v) != float("inf") for r in want for v in r):
+                    ctx.count("model_undefined_point"); continue     # not differentiable here (nan/inf in the model's value)
+                model = want
+                want = [[F(v) for v in r] for r in want]
+                ok = eh.mat_close(got, want, tol=1e-6)
+            else:
+                want = [[core.parse_frac(x) for x in r] for r in model]
+                ok = eh.mat_close(got, want)
+            if not ok:
                 ctx.broke(f"correspondence:jacobians ({which}: Lean model vs implementation)", {"model": model, "impl": got.tolist()}, info)
     return core.finish(ctx, audit, NOTE, RULE, PARTIAL)
 
